@@ -61,12 +61,6 @@ theorem KS.keysDistinct {c c0 : Coll} (h : KS c c0) (hd : KeysDistinct c0) : Key
   rw [e] at *
   exact List.Pairwise.sublist h hd
 
-theorem pyEqOrdered_pyEq (a b : Val) (h : pyEqOrdered a b = true) : pyEq a b = true := by
-  unfold pyEqOrdered at h
-  split at h
-  · simp only [Bool.and_eq_true] at h; exact h.1
-  · exact h
-
 /-- the `_id` of the rewritten document is `==` to the key of the entry it was computed from -/
 theorem rewrite_id (c0 : Coll) (q1 : Val × Val) (new : Val) (h1 : EntU c0 q1) (hnew : TopOK new)
     (hA : pyEq new q1.2 = true ∨ pyEqOpt (idOf q1.2) (idOf new) = true) :
@@ -145,13 +139,10 @@ theorem updateLoop_inv (now : Int) (spec document nowV : Val) (multi : Bool) (c0
           have hnewTop : TopOK new := applyUpdate_top _ _ _ _ _ _ hcurTop hnew
           have hkeys : KS (c.setDoc key new) c0 := by
             unfold KS; rw [setDoc_present_keys c key new (lookup_hasKey c key _ hl)]; exact hk
-          by_cases hun : (if c.isOD key = true then pyEqOrdered new cur else pyEq new cur) = true
+          by_cases hun : pyEq new cur = true
           · rw [if_pos hun] at h
             simp only at h
-            have hA : pyEq new cur = true := by
-              split at hun
-              · exact pyEqOrdered_pyEq _ _ hun
-              · exact hun
+            have hA : pyEq new cur = true := hun
             have hc' := setDoc_entU c0 c key cur new hc hl hnewTop (Or.inl hA)
             -- the unique indexes are checked on the "unchanged" branch as well
             cases hu : ensureUniques now (c.setDoc key new) new with
@@ -229,18 +220,14 @@ def afterLoop (now : Int) (spec document nowV : Val) (ss dfs : Fields) (upsert :
       | .ok built =>
         match insertDoc now ic.2 built with
         | .error e => (ic.2.markStored (insertStored now ic.2 built), .error e)
-        | .ok (c5, newId) =>
-          let c6 := match storeKey newId with
-            | .ok k => { c5 with od := c5.od ++ [k] }
-            | .error _ => c5
-          (c6, .ok ⟨1, 0, some newId, false⟩)
+        | .ok (c5, newId) => (c5, .ok ⟨1, 0, some newId, false⟩)
 
 theorem applyUpdateColl_eq (cfg : Cfg) (now : Int) (c : Coll) (spec0 document0 : Val)
     (upsert multi : Bool) :
     applyUpdateColl cfg now c spec0 document0 upsert multi =
       match patchDT spec0, patchDT document0 with
       | .doc ss, .doc dfs =>
-        (match emptyOperatorCheck cfg dfs with
+        (match updatePrecheck cfg dfs with
         | .error e => (c, .error e)
         | .ok () =>
           match preLoop now c (patchDT spec0) with
@@ -256,7 +243,7 @@ theorem applyUpdateColl_eq (cfg : Cfg) (now : Int) (c : Coll) (spec0 document0 :
   · rename_i ss dfs h1 h2
     rw [h1, h2]
     simp only
-    cases emptyOperatorCheck cfg dfs with
+    cases updatePrecheck cfg dfs with
     | error e => rfl
     | ok u =>
       simp only
@@ -311,8 +298,7 @@ theorem afterLoop_spec (now : Int) (spec document nowV : Val) (ss dfs : Fields) 
           obtain ⟨c5, newId⟩ := p
           simp only [hi] at h
           cases h
-          refine Or.inr ⟨ic.2, built, c5, newId, hd, hi, ?_, _, rfl, rfl⟩
-          split <;> rfl
+          exact Or.inr ⟨ic.2, built, _, newId, hd, hi, rfl, _, rfl, rfl⟩
 
 theorem applyUpdateColl_spec (cfg : Cfg) (now : Int) (c : Coll) (f u : Val) (upsert multi : Bool)
     (c' : Coll) (r : R UpdateResult)
